@@ -122,7 +122,7 @@ def check_recover(ctx):
     scan = ctx.sites(body, R.call("RecoveryScanner::block", "RecoveryScanner::visit_blocks"), inst, floor=3, what="scanner reads")
     rd = ctx.sites(body, R.call("DiskIO::read_allocation_journal"), inst, exact=1)
     rp = ctx.sites(body, R.call("DiskIO::replay_allocation_journal"), inst, exact=1)
-    rt = ctx.sites(body, R.call("DiskIO::retire_extents"), inst, exact=1)
+    rt = ctx.sites(body, R.call("DiskIO::retire_extents"), inst, exact=2)
     pub = ctx.sites(body, V.PUB_REC, inst, exact=1, what="hash index publication (upsert)")
     R.never_after(ctx, inst, body, scan, rp, "journal replay never happens after a scanner read")
     R.dom(ctx, inst, body, rd, rp, "journal is read (and validated) before it is replayed", a_desc="read_allocation_journal")
